@@ -563,7 +563,9 @@ func (x *Exec) enabled() []transition {
 				}
 				out = append(out, transition{t: t})
 			} else {
-				if c == 0 {
+				if c == 0 && len(x.inSend[o.ch]) == 0 {
+					// (with senders already blocked inside the operation the channel is first come, first
+					// served: a parked receiver takes THEIR value, so this sender has nobody to meet)
 					for _, r := range x.tasks {
 						if r != t && r.parked && !r.ended && r.cur.kind == KRecv && r.cur.ch == o.ch {
 							out = append(out, transition{t: t, partner: r})
@@ -809,6 +811,9 @@ func run(sc *Scenario, prefix []int) (x *Exec, engineErr string) {
 			c = prefix[step]
 			if c >= len(order) {
 				x.abandonAll()
+				if os.Getenv("VERIF_DSCHED_DEBUG") != "" {
+					fmt.Fprintf(os.Stderr, "DSCHED-DEBUG divergence: prefix %v\n choices so far %v\n enabled so far %v\n now enabled ids %v\n trace %s\n", prefix, x.Choices, x.Enabled, ids, strings.Join(x.Trace, " "))
+				}
 				return x, fmt.Sprintf("replay divergence at step %d: choice %d of %d; %s", step, c, len(order), x.describe())
 			}
 		}
@@ -1279,6 +1284,10 @@ func Explore(sc *Scenario, maxBound, limit int) *Stats {
 					}
 					np := append(append([]int{}, x.Choices[:i]...), alt)
 					if !rec(np) {
+						if os.Getenv("VERIF_DSCHED_DEBUG") != "" && strings.Contains(st.EngineError, "divergence") {
+							fmt.Fprintf(os.Stderr, "DSCHED-DEBUG parent of the diverging prefix %v (branch at %d):\n choices %v\n enabled %v\n trace %s\n", np, i, x.Choices, x.Enabled, strings.Join(x.Trace, " "))
+							st.EngineError += " [parent printed]"
+						}
 						return false
 					}
 				}
